@@ -287,23 +287,18 @@ func (fields List) Get(name string) Field {
 			data = btoa(b[i+n : i+n+x])
 			i += n + x
 		}
-		if kind == JSON && isj {
-			if jname < fname {
-				break
+		if name < fname {
+			// (not "jname < fname": a field named "a+" sorts between "a" and
+			// "a.z", and a field may itself be named "a.z")
+			break
+		}
+		if kind == JSON && isj && fname == jname {
+			res := gjson.Get(data, jpath)
+			if res.Exists() {
+				return bfield(name, Kind(res.Type), res.String())
 			}
-			if fname == jname {
-				res := gjson.Get(data, jpath)
-				if res.Exists() {
-					return bfield(name, Kind(res.Type), res.String())
-				}
-			}
-		} else {
-			if name < fname {
-				break
-			}
-			if fname == name {
-				return bfield(name, kind, data)
-			}
+		} else if fname == name {
+			return bfield(name, kind, data)
 		}
 	}
 	return ZeroField
